@@ -8,7 +8,7 @@
    are RIGID (same challenge, other responses: a relation between the bases or a collision of the challenge hash).
    Rejection of edited proofs / other bounds, bases, modulus beyond that: correspondence + sweep. *)
 From ZK Require Import Cl ClArith ClSig ClMore ClConsts ClMask ClGroup ClBoudot.
-From ZK Require Import ClRange ClSound ClSound4.
+From ZK Require Import ClRange ClSound ClSound4 ClCanon.
 
 Theorem C16_boudot_accepts :
   forall BP p g h n rmin rmax,
@@ -306,3 +306,18 @@ Check (C16_boudot_accepts_ties_E :
     Zdiv.eqm n (wt_Ea2 (bd_wt p) * wt_Ea1 (bd_wt p) * gp n g gi aa) (bd_Eprime p) /\
     Zdiv.eqm n (wt_Eb2 (bd_wt p) * wt_Eb1 (bd_wt p) * bd_Eprime p) (gp n g gi bb)).
 Print Assumptions C16_boudot_accepts_ties_E.
+
+(* fix F19: the commitment an accepted range proof is about, and the auxiliary commitment of each square proof, are canonical residues *)
+Theorem C16_boudot_accepts_canonical :
+  forall BP p g h n rmin rmax, boudot_verify BP p g h n rmin rmax = Ok true -> (0 <= bd_E p < n)%Z.
+Proof. exact boudot_accepts_canonical. Qed.
+Check (C16_boudot_accepts_canonical :
+  forall BP p g h n rmin rmax, boudot_verify BP p g h n rmin rmax = Ok true -> (0 <= bd_E p < n)%Z).
+Print Assumptions C16_boudot_accepts_canonical.
+
+Theorem C16_square_accepts_canonical :
+  forall p g h n, verify_of_square p g h n = Ok true -> (0 <= sq_F p < n)%Z.
+Proof. exact square_accepts_canonical. Qed.
+Check (C16_square_accepts_canonical :
+  forall p g h n, verify_of_square p g h n = Ok true -> (0 <= sq_F p < n)%Z).
+Print Assumptions C16_square_accepts_canonical.
